@@ -165,13 +165,15 @@ class C05(common.Check):
             "flipped, high-tag form, leaf content shortened to every length / extended with consistent enclosing lengths, raw length octets: "
             "indefinite, 0, +-1, 2^32, 2^63, 2^64, non-minimal); whole-record garbage and PRNG byte "
             "strings. Oracle: returns | needs-network | ValueError/NotImplementedError/NotEnougData/InvalidTag/InvalidUnwrap; <= 300 KDF "
-            "calls; <= 150000 + 400*len traced lines; address-space growth during the call <= 64 MiB + 64*len (kernel high-water mark). Non-trivial = stored bytes differ from a valid blob; distinct = distinct (blob, mutation).")
+            "calls; <= 150000 + 400*len traced lines; address-space growth during the call <= 64 MiB + 64*len (kernel high-water mark); for the field mutations and a quarter of the others the undamaged blob is unprotected afterwards on the same "
+            "cache and must still return its plaintext (locks created by the library are simulated: an acquire nobody can satisfy is the "
+            "outcome 'blocks'). Non-trivial = stored bytes differ from a valid blob; distinct = distinct (blob, mutation).")
     components = {"client": "real (ncrypt_unprotect_secret and everything below it)", "blob store": "simulated fault injection",
                   "step budgets": "deterministic counters (KDF wrapper, sys.settrace restricted to dpapi_ng frames, address-space high-water mark)",
                   "network": "simulated, none reachable; attempts classified at the seam"}
     assumptions = ["budgets are 4x (KDF) and >20x (lines) the maxima observed on valid input and affine in input length",
                    "PRNG byte strings are a weak generator and stated as such"]
-    required_fired = ("rot", "tear", "field", "der", "garbage", "outcome_needs-network", "outcome_raise", "outcome_ok")
+    required_fired = ("rot", "tear", "field", "der", "garbage", "outcome_needs-network", "outcome_raise", "outcome_ok", "valid_blob_after_damaged_one")
 
     def exhaustive(self, tier):
         return tier == "thorough"
@@ -238,8 +240,9 @@ class C05(common.Check):
         kind = {"flip": "rot", "trunc": "tear", "field": "field", "garbage": "der" if (len(fault) > 2 and fault[2].startswith("der")) else "garbage"}[fault[0]]
         fired = {kind: 1}
         limit = LINE_A + LINE_B * len(stored)
+        follow = bool(with_key) and (fault[0] == "field" or len(stored) % 4 == 1)  # the undamaged blob afterwards, on the same cache
         with common.VmWatch() as vm:
-            out, world, cnt = blobs.unprotect_stored(b, stored, with_key=bool(with_key), line_limit=limit)
+            out, world, cnt = blobs.unprotect_stored(b, stored, with_key=bool(with_key), line_limit=limit, then_valid=follow)
         peak = vm.growth
         probes = {"outcome_" + out.kind: 1}
         viol = None
@@ -260,6 +263,14 @@ class C05(common.Check):
             viol = common.violation("C05", "unbounded-work", "sync", "memory", frame, str(where),
                                     f"blob {b.name} ({len(stored)} bytes) mutation {fault[:1] + [str(fault[1])[:80]] + fault[2:]}: address space grew by "
                                     f"{peak} bytes ({peak >> 20} MiB), outcome {out.brief()}")
+        if viol is None and follow:
+            after = cnt["after"]
+            probes["valid_blob_after_damaged_one"] = 1
+            if after.kind != "ok" or after.value != b.plaintext:
+                et, frame = drive.exc_sig(after)
+                viol = common.violation("C05", "valid-blob-after-damaged-one", "sync", et if after.kind != "ok" else "other-bytes", frame, str(where),
+                                        f"after blob {b.name} mutation {fault[:1] + [str(fault[1])[:80]] + fault[2:]} ended with {out.brief()}, the undamaged blob on the "
+                                        f"same cache gave {after.brief()} {after.exc!r}")
         probes["max_lines_per_byte_x100"] = 0
         return {"viol": viol, "digest": out.brief() + str(cnt["kdf"]), "key": common.key_hash([bi, with_key, fault[:2]]) if stored != b.blob else None,
                 "fired": fired, "probes": probes, "vtime_ns": 0}
